@@ -35,7 +35,7 @@ def calculate_sha384_file_hash(file_path):
 
 def country_int_to_str(country: int) -> str:
     r = LocationMessage.Country.Name(country)
-    return r[1:] if r.startswith('R') else r
+    return r[1:] if len(r) == 4 and r.startswith('R') else r
 
 
 def country_str_to_int(country: str) -> int:
